@@ -14,7 +14,7 @@ use proptest::strategy::ValueTree;
 use serde_json::json;
 use std::collections::{BTreeMap, BTreeSet};
 
-pub const URI_POOL: [&str; 33] = [
+pub const URI_POOL: [&str; 36] = [
     "http://example.org/v1/types",
     "http://example.org/v2/types",
     "http://example.org/v3/types",
@@ -49,6 +49,10 @@ pub const URI_POOL: [&str; 33] = [
     "http://example.org/xml",
     "http://example.org/XMLTypes",
     "http://example.org/data/xmlmsg",
+    // other standards' namespaces, close to the well-known ones
+    "http://www.w3.org/2005/08/addressing",
+    "http://www.w3.org/2001/XMLSchema-datatypes",
+    "http://www.w3.org/2000/09/xmldsig#",
 ];
 
 #[derive(Clone, Debug, serde::Serialize, serde::Deserialize)]
